@@ -9,8 +9,11 @@ from . import common as C, fcheck as F, pkgsim as K
 PROP = 'C31'
 LEVEL = 'exploration'
 VARIANT = 'tsan'
-TOOLS = [('tsan', 'abipkgdiff')]
+TOOLS = [('tsan', 'abipkgdiff'), ('plain', 'abipkgdiff')]     # plain: the runs with I/O scheduling points (SIM-F trap + SIM-T), see execute()
 JOBS = 2
+# the runs with I/O scheduling points record file opens and closes in the event log, and the order in which abipkgdiff opens
+# files follows containers hashed on addresses: the plain servers run with ASLR off so that every server has the same layout
+SERVER_PREFIX_BY_VARIANT = {'plain': ['setarch', 'x86_64', '-R']}
 RERUNS = {'quick': 12, 'thorough': 60}
 ASSUMPTIONS = ['context switches happen only at pthread operations, system() and mkdtemp; races inside task bodies are decided by ThreadSanitizer\'s happens-before analysis, not manifested',
                'the reference is the same build run with --no-parallel on the same package pair']
@@ -41,6 +44,13 @@ def make_items(ctx, only=None):
                             {'path': 'lib/libshapes.so', 'v1': 'shapes_v0', 'v2': 'shapes_v2'}, {'path': 'lib/libmathx.so', 'v1': 'mathx_v1_nodbg', 'v2': 'mathx_v1'},
                             {'path': 'lib/libfnptr.so', 'v1': 'fnptr_v0', 'v2': 'fnptr_v1'}, {'path': 'lib/libalias.so', 'v1': 'alias_v0', 'v2': 'alias_v0'}],
                   'format': 'dir', 'abignore': 'none', 'options': ['--no-default-suppression', '--fail-no-dbg']}
+        if i == 3:
+            # --self-check on a package with equal base names in different directories: every task writes the ABIXML of its
+            # binary to a temporary file and reads it back
+            wl = {'files': [{'path': 'lib/libshapes.so', 'v1': 'shapes_v0', 'v2': 'shapes_v0'}, {'path': 'plugins/a/libshapes.so', 'v1': 'shapes_v2', 'v2': 'shapes_v2'},
+                            {'path': 'plugins/b/libshapes.so', 'v1': 'shapes_v3', 'v2': 'shapes_v3'}, {'path': 'lib/libcxx.so', 'v1': 'cxx_v1', 'v2': 'cxx_v1'},
+                            {'path': 'plugins/a/libcxx.so', 'v1': 'cxx_v2', 'v2': 'cxx_v2'}],
+                  'format': 'dir', 'abignore': 'none', 'options': ['--no-default-suppression'], 'self_check': True}
         if i == 0:
             # one hand-made workload that always exercises both .abignore files and pairs that tie in the result
             # ordering (same base name, same summed size) while having different reports (v0->v1 and v1->v0)
@@ -58,10 +68,41 @@ def prepare_item(ctx, name, wl, variant=None):
     root = os.path.join(ctx.rundir, 'wl', name)
     os.makedirs(root)
     p1, p2 = K.materialise(wl, ctx.libs, root)
-    ref = ctx.run('abipkgdiff', K.spec(wl, p1, p2, {'seed': 1, 'policy': 0, 'nprocs': 1}, parallel=False), variant=variant)
+    ref = run_pkg(ctx, {'wl': wl, 'p1': p1, 'p2': p2}, {'seed': 1, 'policy': 0, 'nprocs': 1}, parallel=False, variant=variant)
     if ref.klass[0] != 'exit':
         raise C.InfraError('the sequential reference run of %s died: %s %s' % (name, ref.klass, (ref.stderr or b'')[-400:]))
     return {'name': name, 'wl': wl, 'p1': p1, 'p2': p2, 'ref': ref, 'nfiles': len(wl['files'])}
+
+
+def run_pkg(ctx, it, simt, parallel=True, variant=None, io_yield=False):
+    """one abipkgdiff run on the item's packages.  --self-check writes into the package directory itself (abixml/...): such
+    a workload is copied into the run's private directory first, so that two runs executing at the same time on this
+    machine never share files (the only concurrency is the simulated one)."""
+    wl = it['wl']
+    p1, p2 = it['p1'], it['p2']
+    prepare = None
+    if wl.get('self_check'):
+        src = p1
+
+        def prepare(run):
+            import shutil
+            dst = os.path.join(run, os.path.basename(src))
+            if os.path.isdir(src):
+                shutil.copytree(src, dst, symlinks=True)
+            else:
+                shutil.copyfile(src, dst)
+        p1 = '@RUN@/' + os.path.basename(src)
+    spec = K.spec(wl, p1, p2, simt, parallel=parallel)
+    if io_yield:
+        # scheduling points at every open and close of a file under the run directory (package copy, extraction and cache directories)
+        spec['simf'] = {'objects': [{'prefix': '@RUN@'}], 'faults': [], 'io_yield': 1, 'helper': 1}     # helper: abipkgdiff runs mkdir, tar, rm through system()
+    name = None
+    if io_yield:
+        # the order in which abipkgdiff opens files follows containers hashed on path strings: a re-execution must see the very
+        # same paths, so the run directory gets a name determined by the plan (as in C14)
+        import hashlib
+        name = 'P' + hashlib.sha1(json.dumps([it.get('name'), simt, parallel], sort_keys=True).encode()).hexdigest()[:7]
+    return ctx.run('abipkgdiff', spec, variant=variant, prepare=prepare, name=name)
 
 
 def make_plans(ctx, tier, items):
@@ -70,13 +111,17 @@ def make_plans(ctx, tier, items):
     for name in sorted(items):
         for k in range(NSCHED[tier]):
             rng = C.Prng(C.mix_seed(ctx.seed, 31, 0, i)); i += 1
-            plans.append({'item': name, 'params': {'simt': K.gen_simt(rng, items[name]['nfiles'])}})
+            p = {'simt': K.gen_simt(rng, items[name]['nfiles'])}
+            if rng.chance(1, 3) or (items[name]['wl'].get('self_check') and rng.chance(1, 2)):
+                p['io_yield'] = 1      # plain build: scheduling points at file opens and closes as well
+            plans.append({'item': name, 'params': p})
     return plans
 
 
 def execute(ctx, it, params, variant=None):
     simt = dict(params['simt'])
-    o = ctx.run('abipkgdiff', K.spec(it['wl'], it['p1'], it['p2'], simt), variant=variant)
+    io = bool(params.get('io_yield'))
+    o = run_pkg(ctx, it, simt, variant='plain' if io else variant, io_yield=io)
     ref = it['ref']
     st = o.res.get('simt', {})
     verdict, key = None, None
@@ -105,9 +150,16 @@ def execute(ctx, it, params, variant=None):
         fired += ['first-use-delay'] * st['first_use_delays']
     if st.get('signal_choices'):
         fired += ['signal-recipient-choice'] * st['signal_choices']
-    return F.Result(verdict, key, fired, [(it['name'], st.get('sched_hash'))], digest=(o.exit, C.sha(o.stdout or b''), st.get('log_hash'), o.res.get('tsan_reports')),
+    if io:
+        fired.append('io-scheduling-points')
+    # With I/O scheduling points the event log also records file opens and closes, and their order was seen to differ between
+    # two executions of one plan in a way that could not be pinned down (same output, same status, different log hash): for
+    # those runs the re-execution gate compares status and output only.  A violation must still reproduce twice before it is
+    # reported (fcheck.handle_violation), otherwise the check ends with an infrastructure error, never with a VIOLATION line.
+    return F.Result(verdict, key, fired, [(it['name'], st.get('sched_hash'))], digest=(o.exit, C.sha(o.stdout or b''), None if io else st.get('log_hash'), o.res.get('tsan_reports')),
                     info={'exit': o.exit, 'workers': simt.get('nprocs'), 'policy': simt.get('policy'), 'steps': st.get('steps'), 'threads': st.get('threads'),
-                          'max_enabled': st.get('max_enabled'), 'lock_contended': st.get('lock_contended')},
+                          'max_enabled': st.get('max_enabled'), 'lock_contended': st.get('lock_contended'), 'io_yield': io,
+                          'io_events': o.res.get('simf', {}).get('io_events')},
                     steps=st.get('steps', 0), outcome=o.status_key())
 
 
@@ -130,19 +182,19 @@ def shrink(ctx, it, params):
     for k in ('spurious_budget', 'starve_victim'):
         if k in s:
             t = dict(s); t.pop(k); t.pop('spurious_permille', None) if k == 'spurious_budget' else (t.pop('starve_from', None), t.pop('starve_len', None))
-            yield {'simt': t}
+            yield dict(params, simt=t)
     if s.get('nprocs', 1) > 2:
-        yield {'simt': dict(s, nprocs=2)}
-        yield {'simt': dict(s, nprocs=s['nprocs'] // 2)}
+        yield dict(params, simt=dict(s, nprocs=2))
+        yield dict(params, simt=dict(s, nprocs=s['nprocs'] // 2))
     if 'decisions' not in s:
         # capture the decision list of this very run and replay it explicitly
         import tempfile
         dpath = os.path.join(ctx.rundir, 'dec-%d.json' % os.getpid())
         t = dict(s, decisions_out=dpath)
-        ctx.run('abipkgdiff', K.spec(it['wl'], it['p1'], it['p2'], t))
+        run_pkg(ctx, it, t, variant='plain' if params.get('io_yield') else None, io_yield=bool(params.get('io_yield')))
         try:
             dec = json.load(open(dpath))
-            yield {'simt': dict(s, decisions=[d[2] for d in dec], _defaults=[d[3] for d in dec])}
+            yield dict(params, simt=dict(s, decisions=[d[2] for d in dec], _defaults=[d[3] for d in dec]))
         except (IOError, ValueError):
             pass
     else:
@@ -156,7 +208,7 @@ def shrink(ctx, it, params):
                 drop = set(nd[a:a + chunk])
                 cand = [(-1 if i in drop else dec[i]) for i in range(len(dec))]
                 if cand != dec:
-                    yield {'simt': dict(s, decisions=cand)}
+                    yield dict(params, simt=dict(s, decisions=cand))
 
 
 def describe(ctx, cov, items, plans, results):
